@@ -63,13 +63,13 @@ type Config struct {
 
 // Result is what the scheduler measured.
 type Result struct {
-	Steps      int64
-	Switches   int
-	Tape       []Seg // the schedule actually followed (replayable)
-	OverBudget bool
+	Steps       int64
+	Switches    int
+	Tape        []Seg // the schedule actually followed (replayable)
+	OverBudget  bool
 	SwitchSites []uint32 // site at which each switch happened (parallel to Tape entries after the first)
 	ForcedFired int
-	SiteVisits []uint32
+	SiteVisits  []uint32
 }
 
 type worker struct {
